@@ -158,12 +158,14 @@ def codegen(ws, crate, cargo_args=(), timeout=1800, target_dir=None):
 
 
 def extract_concrete_vals(out):
-    """Parse the unit test Kani prints with --concrete-playback=print -> list of byte lists (one per any())."""
-    m = re.search(r"let concrete_vals: Vec<Vec<u8>> = vec!\[(.*?)\n\s*\];", out, re.S)
-    if not m:
-        return None
-    vals = []
-    for vm in re.finditer(r"vec!\[([0-9,\s]*)\]", m.group(1)):
-        s = vm.group(1).strip()
-        vals.append([int(x) for x in s.split(",") if x.strip()] if s else [])
-    return vals
+    """Parse the unit tests Kani prints with --concrete-playback=print -> list of candidate value lists (one list of byte
+    lists per printed test; Kani prints one test per failed check AND per satisfied cover, so the caller tries them in turn)."""
+    cands = []
+    for m in re.finditer(r"let concrete_vals: Vec<Vec<u8>> = vec!\[(.*?)\n\s*\];", out, re.S):
+        vals = []
+        for vm in re.finditer(r"vec!\[([0-9,\s]*)\]", m.group(1)):
+            s = vm.group(1).strip()
+            vals.append([int(x) for x in s.split(",") if x.strip()] if s else [])
+        if vals not in cands:
+            cands.append(vals)
+    return cands or None
